@@ -27,6 +27,7 @@ type Options struct {
 	seed     int
 	noReplay bool
 	funcRe   string
+	noSafety bool
 }
 
 type unitResult struct {
@@ -66,6 +67,7 @@ func main() {
 	fs.StringVar(&o.verifDir, "verif", "/verif", "verification directory")
 	fs.BoolVar(&o.noReplay, "no-replay", false, "skip counterexample replay")
 	fs.StringVar(&o.funcRe, "func", "", "regexp: only verify contracts whose key matches (debug aid; evidence is partial)")
+	fs.BoolVar(&o.noSafety, "no-safety", false, "skip the safety obligations (debug aid)")
 	args := os.Args[2:]
 	var pos []string
 	for len(args) > 0 && !strings.HasPrefix(args[0], "-") {
@@ -150,6 +152,7 @@ func runCheck(o *Options) int {
 		}
 	}
 	eng := newEngine(o.root)
+	eng.safety = !o.noSafety
 	if err := eng.loadContracts(o.root); err != nil {
 		fmt.Fprintln(os.Stderr, "contract error:", err)
 		return fail(o, "contract-files", err.Error())
@@ -212,6 +215,7 @@ func runCheck(o *Options) int {
 		onlyRe = regexp.MustCompile(o.only)
 	}
 	var obls []*Obl
+	skippedBoundedSafety := 0
 	for _, r := range results {
 		for _, ob := range r.obls {
 			props := ob.Props
@@ -222,6 +226,11 @@ func runCheck(o *Options) int {
 				continue
 			}
 			if onlyRe != nil && !onlyRe.MatchString(ob.Name) {
+				continue
+			}
+			// quick tier: the per-copy safety obligations of bounded (unrolled) units run in the thorough tier only
+			if o.tier != "thorough" && ob.Bound > 0 && ob.Kind == "safety" {
+				skippedBoundedSafety++
 				continue
 			}
 			obls = append(obls, ob)
@@ -241,7 +250,11 @@ func runCheck(o *Options) int {
 				return
 			}
 			q := ob.script.query(ob.nfacts, ob.anc, ob.guard, not(ob.goal))
-			ob.Res = discharge(workdir, fmt.Sprintf("o%04d_%s", i, shortName(ob.Name)), q, timeout, true, nil)
+			to := timeout
+			if ob.Bound > 0 && to < 40 {
+				to = 40 // unrolled units produce larger queries
+			}
+			ob.Res = discharge(workdir, fmt.Sprintf("o%04d_%s", i, shortName(ob.Name)), q, to, true, nil)
 		}(i, ob)
 	}
 	// vacuity probes
@@ -260,6 +273,9 @@ func runCheck(o *Options) int {
 		}(i, pb)
 	}
 	wg.Wait()
+	if skippedBoundedSafety > 0 {
+		fmt.Fprintf(os.Stderr, "quick tier: %d safety obligations of bounded units deferred to the thorough tier\n", skippedBoundedSafety)
+	}
 	return report(o, eng, results, obls, probes, time.Since(t0).Seconds(), workdir)
 }
 
@@ -442,13 +458,43 @@ func report(o *Options, eng *Engine, results []*unitResult, obls, probes []*Obl,
 		}
 	}
 	vacuous := 0
+	var unreachable []string
+	// vacuity: an unsatisfiable precondition, an unreachable final return, or a majority of
+	// unreachable returns means the proof would be (partly) vacuous; isolated unreachable returns
+	// (defensive code made dead by a callee's contract) are only reported in the evidence
+	type fnProbe struct{ total, dead int; lastDead bool; lastBlk int; reqDead bool }
+	byFn := map[string]*fnProbe{}
 	for _, pb := range probes {
-		if pb.Res.Status == "unsat" {
-			vacuous++
-			failed = append(failed, &Obl{Name: pb.Name, Kind: "vacuity", Func: pb.Func, Res: SolverResult{Status: "vacuous", Raw: "the path/precondition is unsatisfiable: the proof would be vacuous"}})
-			fmt.Fprintf(os.Stderr, "VACUOUS %s\n", pb.Name)
+		fp := byFn[pb.Func]
+		if fp == nil {
+			fp = &fnProbe{lastBlk: -1}
+			byFn[pb.Func] = fp
+		}
+		dead := pb.Res.Status == "unsat"
+		if strings.Contains(pb.Name, "#probe.requires") {
+			fp.reqDead = dead
+			continue
+		}
+		var blk int
+		fmt.Sscanf(pb.Name[strings.LastIndex(pb.Name, "@ret")+4:], "%d", &blk)
+		fp.total++
+		if dead {
+			fp.dead++
+			unreachable = append(unreachable, pb.Name)
+		}
+		if blk > fp.lastBlk {
+			fp.lastBlk = blk
+			fp.lastDead = dead
 		}
 	}
+	for fn, fp := range byFn {
+		if fp.reqDead || fp.lastDead || (fp.total > 0 && fp.dead*2 > fp.total) {
+			vacuous++
+			failed = append(failed, &Obl{Name: fn + "#vacuity", Kind: "vacuity", Func: fn, Res: SolverResult{Status: "vacuous", Raw: fmt.Sprintf("precondition unsatisfiable=%v, final return unreachable=%v, %d of %d returns unreachable: the proof would be vacuous", fp.reqDead, fp.lastDead, fp.dead, fp.total)}})
+			fmt.Fprintf(os.Stderr, "VACUOUS %s\n", fn)
+		}
+	}
+	sort.Strings(unreachable)
 	os.MkdirAll(filepath.Join(o.verifDir, "replays"), 0o755)
 	for _, ob := range failed {
 		matched := false
@@ -510,7 +556,7 @@ func report(o *Options, eng *Engine, results []*unitResult, obls, probes []*Obl,
 		"checker_cmd":              "gvc " + strings.Join(os.Args[1:], " "),
 		"trusted_base":             []string{"go/ssa (x/tools v0.50.0)", "gvc VC generator", "z3 4.8.12", "z3 5.1.0", "cvc5 1.0.3"},
 		"samples":                  samples,
-		"vacuity_probes":           map[string]any{"run": len(probes), "vacuous": vacuous},
+		"vacuity_probes":           map[string]any{"run": len(probes), "vacuous_functions": vacuous, "unreachable_returns": unreachable},
 		"known_findings":           knownHit,
 		"load_s":                   round2(eng.loadS),
 		"explanation":              fmt.Sprintf("%d unbounded and %d bounded obligations generated from the go/ssa form of %d functions under contract in /repo's working tree; each is an SMT query (negated goal under path condition and callee contracts) that must be unsat", nUnb, nB, len(funcs)),
